@@ -277,14 +277,32 @@ func (r *SpecReg) buildFold(sd *SpecDecl) {
 		ex = " " + ex
 		exd = " " + exd
 	}
-	gAt := func(arr, idx string) string {
-		return "(let ((e (select " + arr + " " + idx + "))) " + g.S + ")"
+	abstractG := false
+	gname := "G_" + name
+	gOf := func(elem string) string {
+		if abstractG {
+			return "(" + gname + " " + elem + ex + ")"
+		}
+		return "(let ((e " + elem + ")) " + g.S + ")"
 	}
-	var b strings.Builder
-	fmt.Fprintf(&b, "(declare-fun %s (%s) %s)\n", smt, strings.Join(ps, " "), ret.Name)
-	fmt.Fprintf(&b, "(assert (forall ((a %s)%s) (! (= (%s a 0%s) %s) :pattern ((%s a 0%s)))))\n", arrSort, exd, smt, ex, zero, smt, ex)
-	fmt.Fprintf(&b, "(assert (forall ((a %s) (k Int)%s) (! (=> (> k 0) (= (%s a k%s) (+ (%s a (- k 1)%s) %s))) :pattern ((%s a k%s)))))\n",
-		arrSort, exd, smt, ex, smt, ex, gAt("a", "(- k 1)"), smt, ex)
+	gAt := func(arr, idx string) string { return gOf("(select " + arr + " " + idx + ")") }
+	mkBase := func() string {
+		var b strings.Builder
+		if abstractG {
+			// in the lemma proofs the element term is an arbitrary function: the lemmas hold for every sum fold
+			var gps []string
+			gps = append(gps, sl.Elem.Name)
+			for i := 1; i < len(sorts); i++ {
+				gps = append(gps, sorts[i].Name)
+			}
+			fmt.Fprintf(&b, "(declare-fun %s (%s) %s)\n", gname, strings.Join(gps, " "), ret.Name)
+		}
+		fmt.Fprintf(&b, "(declare-fun %s (%s) %s)\n", smt, strings.Join(ps, " "), ret.Name)
+		fmt.Fprintf(&b, "(assert (forall ((a %s)%s) (! (= (%s a 0%s) %s) :pattern ((%s a 0%s)))))\n", arrSort, exd, smt, ex, zero, smt, ex)
+		fmt.Fprintf(&b, "(assert (forall ((a %s) (k Int)%s) (! (=> (> k 0) (= (%s a k%s) (+ (%s a (- k 1)%s) %s))) :pattern ((%s a k%s)))))\n",
+			arrSort, exd, smt, ex, smt, ex, gAt("a", "(- k 1)"), smt, ex)
+		return b.String()
+	}
 	// store-frame lemma (proved by induction as a lemma obligation)
 	frame := fmt.Sprintf("(assert (forall ((a %s) (i Int) (v %s) (k Int)%s) (! (=> (and (<= 0 k) (<= k i)) (= (%s (store a i v) k%s) (%s a k%s))) :pattern ((%s (store a i v) k%s)))))\n",
 		arrSort, sl.Elem.Name, exd, smt, ex, smt, ex, smt, ex)
@@ -292,10 +310,13 @@ func (r *SpecReg) buildFold(sd *SpecDecl) {
 	for _, q := range sd.Params {
 		fn.PNames = append(fn.PNames, q.Name)
 	}
-	base := b.String()
+	base := mkBase()
 	update := fmt.Sprintf("(assert (forall ((a %s) (i Int) (v %s) (k Int)%s) (! (=> (and (<= 0 i) (< i k)) (= (%s (store a i v) k%s) (+ (- (%s a k%s) %s) %s))) :pattern ((%s (store a i v) k%s)))))\n",
-		arrSort, sl.Elem.Name, exd, smt, ex, smt, ex, gAt("a", "i"), "(let ((e v)) "+g.S+")", smt, ex)
+		arrSort, sl.Elem.Name, exd, smt, ex, smt, ex, gAt("a", "i"), gOf("v"), smt, ex)
 	fn.Decl = base + frame + update
+	concreteBase := base
+	abstractG = true
+	base = mkBase()
 	{
 		var u strings.Builder
 		u.WriteString(base + frame)
@@ -304,7 +325,7 @@ func (r *SpecReg) buildFold(sd *SpecDecl) {
 			fmt.Fprintf(&u, "(declare-const x%s %s)\n", sd.Params[i].Name, sorts[i].Name)
 		}
 		rhs := func(kk string) string {
-			return fmt.Sprintf("(+ (- (%s a %s%s) %s) %s)", smt, kk, ex, gAt("a", "i"), "(let ((e v)) "+g.S+")")
+			return fmt.Sprintf("(+ (- (%s a %s%s) %s) %s)", smt, kk, ex, gAt("a", "i"), gOf("v"))
 		}
 		fmt.Fprintf(&u, "(assert (and (<= 0 i) (< i k)))\n(assert (=> (< i (- k 1)) (= (%s (store a i v) (- k 1)%s) %s)))\n", smt, ex, rhs("(- k 1)"))
 		fmt.Fprintf(&u, "(assert (not (= (%s (store a i v) k%s) %s)))\n", smt, ex, rhs("k"))
@@ -346,7 +367,7 @@ func (r *SpecReg) buildFold(sd *SpecDecl) {
 		// non-negative fold: F(a,k) >= 0 for k >= 0, proved by induction (element terms must be >= 0)
 		fn.Decl += fmt.Sprintf("(assert (forall ((a %s) (k Int)%s) (! (=> (<= 0 k) (>= (%s a k%s) %s)) :pattern ((%s a k%s)))))\n", arrSort, exd, smt, ex, zero, smt, ex)
 		var nn strings.Builder
-		nn.WriteString(base)
+		nn.WriteString(concreteBase)
 		fmt.Fprintf(&nn, "(declare-const a %s)\n(declare-const k Int)\n", arrSort)
 		for i := 1; i < len(sorts); i++ {
 			fmt.Fprintf(&nn, "(declare-const x%s %s)\n", sd.Params[i].Name, sorts[i].Name)
@@ -883,6 +904,19 @@ func (e *SpecEnv) evalCall(x *SX) (Term, error) {
 			return t, err
 		}
 		return Term{sx("ite", sx("=", t.S, "bnil"), e.ss().StrConst("<nil>"), sx("int2str", sx("bval", t.S))), SStr}, nil
+	}
+	if x.Name == "boxany" && len(x.Args) == 1 {
+		// boxany(x): x converted to the empty interface, as the Go code does when passing it as `any`
+		t, err := e.Eval(x.Args[0])
+		if err != nil {
+			return t, err
+		}
+		if t.Sort.GoType == nil {
+			return t, fmt.Errorf("boxany: the Go type of %s is not known", x.Args[0])
+		}
+		anyS := e.ss().Of(types.NewInterfaceType(nil, nil))
+		fn, _ := e.ss().BoxFn(t.Sort, anyS, t.Sort.GoType)
+		return Term{sx(fn, t.S), anyS}, nil
 	}
 	if x.Name == "unchangedExcept" {
 		// unchangedExcept(new, old, Field1, Field2, ...): all other fields are equal
